@@ -37,17 +37,37 @@ def run_impl_codec(specs, opts, timeout=1500):
     return recs
 
 
+def qcstr(t):
+    """a printable-ASCII text as one Coq string literal (a double quote is written twice), anything else as C.cstr does"""
+    if t and all(32 <= ord(c) < 127 for c in t):
+        return '(s "' + t.replace('"', '""') + '")'
+    return C.cstr(t)
+
+
+def big_cstr(text, chunk=1200):
+    """long expected texts (estimator schemas: tens of thousands of characters) as a right-nested append of short literals:
+    one literal of that length -- or its code-point list -- overflows coqc's stack"""
+    if len(text) <= chunk:
+        return qcstr(text)
+    parts = [qcstr(text[i:i + chunk]) for i in range(0, len(text), chunk)]
+    out = parts[-1]
+    for part in reversed(parts[:-1]):
+        out = f"(app {part} {out})"
+    return out
+
+
 def cases_text(rows, key):
-    return C.clist((f"({r['term']}, {C.cstr(r[key])})" for r in rows), "(ccase * pstr)")
+    return C.clist((f"({r['term']}, {big_cstr(r[key])})" for r in rows), "(ccase * pstr)")
 
 
-def model_compare(R, recs, tag, extra_defs="", flags=None):
+def model_compare(R, recs, tag, extra_defs="", flags=None, shard=None):
     """Coq evaluation of run_dump / run_load (and optional flag functions) on every modelled case.
     -> {aspect: [(index into recs, model's text window)]}, {flag: [bool per modelled case]}, modelled indices"""
     idx = [i for i, r in enumerate(recs) if r and r.get("term")]
     files = []
-    for sh, lo in enumerate(range(0, len(idx), COQ_SHARD)):
-        rows = [recs[i] for i in idx[lo:lo + COQ_SHARD]]
+    shard = shard or COQ_SHARD
+    for sh, lo in enumerate(range(0, len(idx), shard)):
+        rows = [recs[i] for i in idx[lo:lo + shard]]
         body = ["From Skv Require Import CodecShow CodecGuards CodecFacts.", "From Gen Require Import Snapshot.", extra_defs,
                 f"Definition dump_cases : list (ccase * pstr) := {cases_text(rows, 'dump')}.",
                 f"Definition load_cases : list (ccase * pstr) := {cases_text(rows, 'load')}.",
@@ -63,7 +83,7 @@ def model_compare(R, recs, tag, extra_defs="", flags=None):
     flagvals = {fl: [] for fl in (flags or [])}
     for sh, f in enumerate(files):
         parts = outs[f].split("     = ")[1:]
-        base = sh * COQ_SHARD
+        base = sh * shard
         for name, part in zip(("dump", "load"), parts[:2]):
             for k, txt in parse_mismatches("= " + part):
                 bad[name].append((idx[base + k], txt))
@@ -137,7 +157,9 @@ def run(R, only=None):
                        "zipfile"]
     R.assumptions += ["floats are identified with their JSON text (repr): CPython's float(repr(x)) == x is assumed, exercised on the generated floats",
                       "C05_roundtrip_partial is proved on the decidable fragment c05_guard (arbitrary sharing; bytes / bytearray and object arrays of EVERY rank "
-                      "-- 0, zero-length axes, cells anywhere in the fragment -- included; see coq/props/C05.v for what is inside and what is still missing: scipy sparse arrays); "
+                      "-- 0, zero-length axes, cells anywhere in the fragment -- included; user objects on the generic object path -- any resolvable class without hidden "
+                      "payload, any state of the fragment, nested and shared -- included: for them 'round trip' means same class name + equal state handed to __setstate__, the class's own "
+                      "contract being a premise (C07); see coq/props/C05.v); "
                       "supported values outside it are covered by the per-case model evaluation and the correspondence only",
                       "the identity pattern of objects returned by __reduce__()/__getstate__()/get_state() is the same in the emitter's call and in the dump's call"]
     if snap is None:
@@ -146,7 +168,7 @@ def run(R, only=None):
     rnd = random.Random(R.seed)
     n = 330 if R.tier == "quick" else 3000
     k = 3 if R.tier == "quick" else 12
-    specs = only or (WITNESSES + [GV.gen_value(rnd, supported=True, max_depth=3 if R.tier == "quick" else 4) for _ in range(n)])
+    specs = only or (WITNESSES + [GV.gen_value(rnd, supported=True, max_depth=3 if R.tier == "quick" else 4, objects=True) for _ in range(n)])
     recs = run_impl_codec(specs, {"protocol": snap["protocol"], "cycles": k})
     bad, flags, idx = model_compare(R, recs, "c05", flags=["c05_case_supported", PROVED, EXACT, SAME])
     nsup = nproved = nexact = 0
@@ -204,6 +226,20 @@ WITNESSES = [
     ["dict", [[["str", "big"], ["ndarray", "<c16", [300, 250], "F", 7, False]], [["str", "m"], ["masked", ["ndarray", "<f8", [200000], "C", 1, False], 2]]]],
     ["generator", "PCG64", 5, 1, 3],
     ["sparse", "csr", [3, 4], 1, "noncanonical"],
+    # user objects on the generic object path (inside `supported` and the proved fragment): a __dict__ bag with nested values; ONE
+    # object reachable from a list twice and from inside another object's state; states that are not dicts (falsy ones: they
+    # must still reach __setstate__; a None state -- an object with an empty __dict__ -- for which nothing is called, as in pickle: a
+    # class whose __getstate__ returns None although it has state loses it under pickle as well and is not part of the grammar);
+    # a __reduce__ constructor whose argument is a shared list;
+    # a scipy sparse array (its __dict__); a fitted scikit-learn estimator (BaseEstimator.__getstate__())
+    ["userobj", "Plain", [["a", ["list", [["int", 1], ["str", "x"]]]], ["coef_", ["ndarray", "<f8", [2, 3], "F", 3, False]], ["d", ["dict", [[["int", 1], ["none"]]]]]]],
+    ["list", [["userobj", "Plain", [["a", ["int", 1]]]], ["ref", 0], ["userobj", "WithState", [["payload", ["ref", 0]]]], ["ref", 1]]],
+    ["list", [["userobj", "FalsyState", [["flag", ["bool", False]]]], ["userobj", "FalsyState", [["flag", ["int", 0]]]], ["userobj", "FalsyState", [["flag", ["tuple", []]]]],
+              ["userobj", "FalsyState", [["flag", ["dict", []]]]], ["userobj", "FalsyState", [["flag", ["str", ""]]]], ["userobj", "Plain", []],
+              ["userobj", "FalsyState", [["flag", ["tuple", [["int", 1], ["list", [["int", 2]]]]]]]]]],
+    ["tuple", [["list", [["int", 1]]], ["userobj", "ReduceCtor", [["x", ["ref", 0]], ["y", ["int", 0]]]], ["userobj", "ReduceCtor", [["x", ["userobj", "Plain", [["a", ["ref", 0]]]]]]]]],
+    ["dict", [[["str", "m"], ["sparse", "csr_array", [3, 4], 2]], [["str", "o"], ["userobj", "WithState", [["payload", ["sparse", "coo_array", [5, 2], 1]]]]]]],
+    ["estimator", "StandardScaler", 1, True],
 ]
 
 
